@@ -848,7 +848,18 @@ func (p *Path) conv(dst, src types.Type, x Value) Value {
 				}
 				s, ok := x.(string)
 				if !ok {
-					p.unsupported("[]rune(symbolic string)")
+					ss, isSym := x.(*SymStr)
+					if !isSym {
+						p.unsupported("[]rune(abstract string)")
+					}
+					// decode rune by rune, forking on each sequence length
+					var out []Value
+					for i := 0; i < len(ss.B); {
+						r, w := p.decodeRuneSym(ss.B[i:])
+						out = append(out, r)
+						i += w
+					}
+					return Slice{A: out}
 				}
 				var out []Value
 				for _, r := range s {
